@@ -82,7 +82,8 @@ class ProtoModel:
         for f in self.msgs[name]["fields"]:
             if f["repeated"]:
                 if f["map"]:
-                    st, r = eng.alloc(st, "opaque", None, id=V.fresh_int("map"))
+                    # a map field: opaque content; whether it is empty is unknown for a symbolic message, empty for a new one
+                    st, r = eng.alloc(st, "pmap", None, id=V.fresh_int("map"), nonempty=(V.fresh_bool(f"{base}.{f['name']}.nonempty") if sym else False))
                     fields[f["name"]] = r
                 elif sym:
                     seg = Seg(V.fresh_of_sort(f"{base}.{f['name']}", V.SegSort), f["name"])
